@@ -115,6 +115,16 @@ CHECKS = {
     note="Documented modes per field = frozen table harness/mode_fields.json (field metadata of the pinned tree); quick tier samples "
          "modes and behaviours, thorough uses all 15 x flags; TLC, PLY, CPython trusted.",
     design="DESIGN.md 3.6, 4 (C10)", technique=TECH + " (Clauses.tla, Registry.tla, TableFold.tla, Entities.tla)"),
+ "C12": dict(
+    text="The ShapeOK / TypeOK invariants of spec/TableFold.tla, Registry.tla, Entities.tla, Clauses.tla are model-checked with the other "
+         "properties' configurations; the behaviours those specifications generate (tables with every option / item form, ALTER / INDEX "
+         "scripts, entity scripts, dialect clauses) and the regression corpus are parsed by the real library in the output modes x "
+         "normalize_names x group_by_type, and EVERY returned result is validated against the documented shape (entity dicts, table "
+         "keys incl. schema/dataset, list/dict types, column keys, boolean unique/nullable, primary key names among the columns, "
+         "always-present buckets), must be JSON-serialisable, and run(json_dump=True) must be exactly json.dumps(run()).",
+    note="Shape validation of replayed results (the specification supplies the inputs and the record shapes); primary-key membership "
+         "judged on generated, well-formed tables only; quick tier samples modes/flags; TLC, PLY, CPython trusted.",
+    design="DESIGN.md 4 (C12)", technique=TECH + " (TableFold.tla, Registry.tla, Entities.tla, Clauses.tla)"),
 }
 NOT_YET = {}
 def main():
